@@ -2,7 +2,7 @@
 # tools/run_seeded.sh [tier] [seeded-dir ...] : run each seeded change's property check against a scratch worktree of /repo HEAD
 # with the change applied (VERIF_REPO), evidence/replays redirected to a scratch dir.  Prints one line per change.
 TIER="${1:-quick}"; shift
-cd /verif
+cd "$(dirname "$(readlink -f "$0")")/.." || exit 3; ROOT=$PWD
 SFX="${SEEDED_SFX:-}"; WT=/var/tmp/gk-seeded-wt$SFX; SCR=/var/tmp/gk-seeded-scratch$SFX
 git -C /repo worktree remove --force $WT 2>/dev/null; rm -rf $WT $SCR
 git -C /repo worktree add -q --detach $WT HEAD || exit 3
@@ -10,7 +10,7 @@ DIRS="$@"; [ -z "$DIRS" ] && DIRS=$(ls -d seeded/*/ | sort)
 for d in $DIRS; do
   d=${d%/}; name=$(basename $d); ID=${name%%-*}
   git -C $WT checkout -q -- . ; git -C $WT clean -fdq
-  if ! git -C $WT apply /verif/$d/patch.diff 2>/dev/null; then echo "$name: PATCH DOES NOT APPLY"; continue; fi
+  if ! git -C $WT apply $ROOT/$d/patch.diff 2>/dev/null; then echo "$name: PATCH DOES NOT APPLY"; continue; fi
   t0=$(date +%s)
   out=$(VERIF_REPO=$WT VERIF_SCRATCH=$SCR ./check $ID $TIER 2>&1); rc=$?
   sigs=$(echo "$out" | grep "signature:" | sed 's/ *signature: //' | head -3 | tr '\n' ';')
